@@ -3074,12 +3074,9 @@ func (dsc *dataStoreCommand) sort(sourceKeyName, byPattern, destKeyName string, 
 	} else {
 		sk, objExists := dsc.getKeyObjectUnlocked(sourceKeyName)
 		if !objExists {
-			output = nativeValueToResp([]any{})
-			return
-		}
-
-		ss := sk.getSet()
-		if ss != nil {
+			// a missing key sorts as an empty list (with STORE the destination is deleted)
+			vals = []sortVal{}
+		} else if ss := sk.getSet(); ss != nil {
 			// convert set (a hash table) into a value array
 			vals = make([]sortVal, 0, ss.count)
 			for i := ss.createIterator(); i.next(); {
@@ -3204,15 +3201,26 @@ func (dsc *dataStoreCommand) sort(sourceKeyName, byPattern, destKeyName string, 
 	}
 
 	if destKeyName != "" {
-		list := dsc.newListUnlocked(destKeyName)
+		// STORE replaces the destination, whatever it held and with its deadline; an empty result deletes it
+		if len(a) == 0 {
+			dsc.ds.data.remove(destKeyName)
+			dsc.setDirty()
+		} else {
+			list := &storeList{}
 
-		for _, element := range a {
-			str, _ := element.toString()
-			dsc.rpushUnlocked(destKeyName, list, []byte(str))
+			newSk := dsc.ds.newStoreKeyUnlocked(destKeyName)
+			newSk.flags = FLAG_KEY_TYPE_LIST
+			newSk.expiresAt = maxTime
+			newSk.payload = list
+
+			for _, element := range a {
+				str, _ := element.toString()
+				dsc.rpushUnlocked(destKeyName, list, []byte(str))
+			}
 		}
 		uk.elements = len(a)
 
-		output.data = respInt(list.count)
+		output.data = respInt(len(a))
 	} else {
 		output = nativeValueToResp(a)
 	}
